@@ -144,7 +144,7 @@ def column_guard(ctx, tk, rule):
     f = ctx.func(RS + "broadcast_values")
     fa = ctx.fa(f)
     selfn = f.params[0]
-    sinks = [n for n, c in find_calls(fa, lambda c: c.a[0].k == "attr" and c.a[0].a[1] in ("_raw_broadcast", "_broadcast_values_fast"))]
+    sinks = [(n, c) for n, c in find_calls(fa, lambda c: c.a[0].k == "attr" and c.a[0].a[1] in ("_raw_broadcast", "_broadcast_values_fast"))]
     what = "values are broadcast over rows only after refusing unless their shape is (n_rows, 1)"
 
     def m(t):
